@@ -423,8 +423,38 @@ impl Abs for cfgp::serverbound::ResourcePackResponsePacket {
 // observations
 // ------------------------------------------------------------------------------------------------
 
+/// An `AsyncRead` over fixed bytes that hands them out in pieces of the given sizes (cyclically), never more.
+struct Trickle {
+    data: Vec<u8>,
+    pos: usize,
+    sizes: Vec<usize>,
+    i: usize,
+}
+
+impl Trickle {
+    fn new(data: &[u8], sizes: &[usize]) -> Self {
+        Trickle { data: data.to_vec(), pos: 0, sizes: sizes.to_vec(), i: 0 }
+    }
+}
+
+impl tokio::io::AsyncRead for Trickle {
+    fn poll_read(mut self: std::pin::Pin<&mut Self>, _cx: &mut std::task::Context<'_>, buf: &mut tokio::io::ReadBuf<'_>) -> std::task::Poll<std::io::Result<()>> {
+        let want = self.sizes[self.i % self.sizes.len()].max(1);
+        self.i += 1;
+        let n = want.min(buf.remaining()).min(self.data.len() - self.pos);
+        let (a, b) = (self.pos, self.pos + n);
+        buf.put_slice(&self.data[a..b]);
+        self.pos = b;
+        std::task::Poll::Ready(Ok(()))
+    }
+}
+
+const PIECES: [&[usize]; 2] = [&[1], &[2, 1, 5, 3, 64, 1, 1000, 7]];
+
 #[derive(Default)]
 struct Obs {
+    /// decoding the same bytes from a source that delivers them in pieces gave the same result (ok-ness, value, bytes consumed)
+    segmented_same: bool,
     encoded: String,
     id: i64,
     decoded_ok: bool,
@@ -502,6 +532,20 @@ where
             note(&mut o, "decode", "panic");
         }
     }
+    // the same bytes from a source that delivers them in pieces
+    o.segmented_same = PIECES.iter().all(|sizes| {
+        match catch_unwind(AssertUnwindSafe(|| {
+            rt.block_on(async {
+                let mut src = Trickle::new(wire, sizes);
+                let r = T::read_from_buffer(&mut src).await;
+                (r, src.pos)
+            })
+        })) {
+            Ok((Ok(p), pos)) => o.decoded_ok && Some(p.abs()) == o.decoded && (pos == wire.len()) == o.consumed_all,
+            Ok((Err(_), _)) => !o.decoded_ok && !o.panic,
+            Err(_) => o.panic,
+        }
+    });
     o
 }
 
@@ -541,6 +585,19 @@ fn run_varint(rt: &Runtime, value: Option<i32>, wire: &[u8]) -> Obs {
             note(&mut o, "decode", "panic");
         }
     }
+    o.segmented_same = PIECES.iter().all(|sizes| {
+        match catch_unwind(AssertUnwindSafe(|| {
+            rt.block_on(async {
+                let mut src = Trickle::new(wire, sizes);
+                let r = src.read_varint().await;
+                (r, src.pos)
+            })
+        })) {
+            Ok((Ok(x), pos)) => o.decoded_ok && Some(json!({"v": x})) == o.decoded && (pos == wire.len()) == o.consumed_all,
+            Ok((Err(_), _)) => !o.decoded_ok && !o.panic,
+            Err(_) => o.panic,
+        }
+    });
     o
 }
 
@@ -580,6 +637,19 @@ fn run_varlong(rt: &Runtime, value: Option<i64>, wire: &[u8]) -> Obs {
             note(&mut o, "decode", "panic");
         }
     }
+    o.segmented_same = PIECES.iter().all(|sizes| {
+        match catch_unwind(AssertUnwindSafe(|| {
+            rt.block_on(async {
+                let mut src = Trickle::new(wire, sizes);
+                let r = src.read_varlong().await;
+                (r, src.pos)
+            })
+        })) {
+            Ok((Ok(x), pos)) => o.decoded_ok && Some(json!({"l": abs_limbs(x as u64)})) == o.decoded && (pos == wire.len()) == o.consumed_all,
+            Ok((Err(_), _)) => !o.decoded_ok && !o.panic,
+            Err(_) => o.panic,
+        }
+    });
     o
 }
 
@@ -689,6 +759,7 @@ pub fn main(args: &[String]) {
             "decoded_ok": o.decoded_ok,
             "decoded_value_roundtrip": o.roundtrip,
             "consumed_all": o.consumed_all,
+            "segmented_same": o.segmented_same,
             "id": o.id,
             "error": o.error,
             "panic": o.panic,
